@@ -175,7 +175,14 @@ class PureSnapshot:
         output (Any): Output when the machine completed.
     """
 
-    __slots__ = ("state_ids", "configuration", "context", "status", "output")
+    __slots__ = (
+        "state_ids",
+        "configuration",
+        "context",
+        "status",
+        "output",
+        "history",
+    )
 
     def __init__(
         self,
@@ -184,6 +191,7 @@ class PureSnapshot:
         context: Dict[str, Any],
         status: str = "active",
         output: Any = None,
+        history: Optional[Dict[str, List[str]]] = None,
     ) -> None:
         """Initializes the snapshot.
 
@@ -193,12 +201,16 @@ class PureSnapshot:
             context: The context after the step.
             status: Lifecycle status.
             output: Completion output, if any.
+            history: Remembered configurations for history states, keyed by
+                parent state id. Carried from step to step so a later
+                transition to a history state restores what was left.
         """
         self.state_ids = state_ids
         self.configuration = configuration
         self.context = context
         self.status = status
         self.output = output
+        self.history = history if history is not None else {}
 
     def matches(self, state_id: str) -> bool:
         """Reports whether a state is active in this snapshot.
@@ -296,6 +308,10 @@ def _capture(probe: Any) -> PureSnapshot:
         context=copy.deepcopy(probe.context),
         status=status,
         output=probe.output,
+        history={
+            parent_id: [node.id for node in nodes]
+            for parent_id, nodes in probe._history.items()
+        },
     )
 
 
@@ -349,6 +365,18 @@ def transition(
         node = machine.get_state_by_id(state_id)
         if node is not None:
             probe._active_state_nodes.add(node)
+
+    # 🕰️ Restore remembered history. Without it every call started with an
+    #    empty memory, so a transition to a history state always took the
+    #    default branch and the pure API diverged from both interpreters.
+    for parent_id, node_ids in (getattr(snapshot, "history", None) or {}).items():
+        nodes = [
+            node
+            for node in (machine.get_state_by_id(nid) for nid in node_ids)
+            if node is not None
+        ]
+        if nodes:
+            probe._history[parent_id] = nodes
 
     # 📭 Only actions from THIS step should be reported.
     recorded.clear()
